@@ -9,13 +9,13 @@ import jbkgen
 PROPS_DEFAULT = ["name", "size", "blob", "kind", "extra"]
 
 
-def make_container(rng, cid, n_entries=None, n_extras=0, comp=None, big=False, concat="one", mixed_hints=True, sizes=None):
+def make_container(rng, cid, n_entries=None, n_extras=0, comp=None, big=False, concat="one", mixed_hints=True, sizes=None, extra_ids=None):
     """a container whose entries describe its contents (name, size, content address)"""
     comp = comp or rng.choice(["none", "lz4", "lzma", "zstd"])
     level = {"none": 0, "lz4": 3, "lzma": 1, "zstd": rng.choice([1, 5])}[comp]
     n = n_entries if n_entries is not None else rng.choice([1, 2, 3, 6])
     ops, entries = [], []
-    extras = [{"pack_id": 2 + j, "file": "extra%d.jbkc" % j, "comp": rng.choice(["none", "zstd", "lz4"]), "level": 1, "ops": []}
+    extras = [{"pack_id": (extra_ids[j] if extra_ids else 2 + j), "file": "extra%d.jbkc" % j, "comp": rng.choice(["none", "zstd", "lz4"]), "level": 1, "ops": []}
               for j in range(n_extras)]
     for j in range(n):
         size = rng.choice(sizes) if sizes else (rng.choice([0, 1, 5, 40, 200, 700]) if not big else rng.choice([100, 5000, 70000, 300000]))
